@@ -389,3 +389,31 @@ Example C17_freshness_hypothesis_necessary :
 Proof.
   intro stale. split; [intro H; apply (H 0%nat 1%nat); [discriminate|reflexivity]|vm_compute; reflexivity].
 Qed.
+
+(* TIE BY TRANSLATION: util.lv_unpack as it reads in /repo/src NOW (coq/Gen/Src_lv.v, regenerated by harness/py2v.py on
+   every run: the `while txt:` loop as recursion on explicit fuel, `l, v = txt.split(":", 1)`, int(l), v[:n], v[n:])
+   (CookieHandler._ver_dec_content: the decrypted / signed cookie payload goes through it).
+   For every text of at most 4300 characters and every fuel above its length the translated function computes the
+   model's lv_unpack - same list, same ValueError, Unmodelled exactly where the model is (a non-ASCII non-blank
+   character in a length prefix) - and the loop never runs out of fuel.  The bound is CPython's default limit on the
+   digits of an int() literal (run-time configurable, so not modelled: PyOps.py_int_of); beyond it the translation is
+   either outside that fragment or again the model (second theorem), and on everything lv_pack wrote - whatever the
+   length - it returns the packed list (third theorem; the side condition holds for every string a process can hold). *)
+From Verif Require Lib.PyOps Gen.Src_lv Proofs.Src_refine_lv.
+Theorem C17_lv_unpack_is_source : forall fuel txt clock,
+  (length txt < fuel)%nat -> (length txt <= PyOps.int_max_str_digits)%nat ->
+  Src_lv.lv_unpack_src fuel (VStr txt) clock = Src_refine_lv.inj_strs (lv_unpack txt) /\ lv_unpack txt <> Err OutOfFuel.
+Proof. exact Src_refine_lv.lv_unpack_refines. Qed.
+Print Assumptions C17_lv_unpack_is_source.
+Theorem C17_lv_unpack_is_source_any_length : forall fuel txt clock,
+  (length txt < fuel)%nat ->
+  Src_lv.lv_unpack_src fuel (VStr txt) clock = Unmodelled
+  \/ Src_lv.lv_unpack_src fuel (VStr txt) clock = Src_refine_lv.inj_strs (lv_unpack txt).
+Proof. exact Src_refine_lv.lv_unpack_refines_partial. Qed.
+Print Assumptions C17_lv_unpack_is_source_any_length.
+Theorem C17_lv_source_roundtrip : forall l fuel clock,
+  (length (lv_pack l) < fuel)%nat ->
+  List.Forall (fun a => length (str_of_nat (length a)) <= PyOps.int_max_str_digits)%nat l ->
+  Src_lv.lv_unpack_src fuel (VStr (lv_pack l)) clock = Ok (VList (List.map VStr l)) /\ lv_unpack (lv_pack l) = Ok l.
+Proof. exact Src_refine_lv.lv_unpack_src_roundtrip. Qed.
+Print Assumptions C17_lv_source_roundtrip.
